@@ -162,11 +162,20 @@ pub fn gen_zone(rng: &mut Rng, cfg: &ZoneGenCfg) -> GenZone {
         2..=6 => 2,
         _ => 3,
     };
-    let ntypes = match rng.below(10) {
-        0 => 1,
-        1..=4 => 2 + rng.usize(2),
-        5..=8 => 3 + rng.usize(5),
-        _ => 8 + rng.usize(12),
+    // now and then a file near the format's limits: up to 240 local time types (the type index
+    // is one byte) sharing a dozen abbreviations, or a few thousand transitions
+    let many_types = rng.chance(1, 60);
+    let many_trans = rng.chance(1, 150);
+    let abbr_pool: Vec<String> = (0..12).map(|_| gen_abbr(rng, false)).collect();
+    let ntypes = if many_types {
+        60 + rng.usize(181)
+    } else {
+        match rng.below(10) {
+            0 => 1,
+            1..=4 => 2 + rng.usize(2),
+            5..=8 => 3 + rng.usize(5),
+            _ => 8 + rng.usize(12),
+        }
     };
     // "close" zones: all offsets inside a narrow band and transitions only a little further
     // apart than the band is wide (hours to a few days) - still no two wall-clock windows overlap
@@ -196,6 +205,7 @@ pub fn gen_zone(rng: &mut Rng, cfg: &ZoneGenCfg) -> GenZone {
         } else {
             t
         };
+        let t = if many_types { LType { abbr: rng.pick(&abbr_pool).clone(), ..t } } else { t };
         types.push(t);
     }
 
@@ -214,6 +224,7 @@ pub fn gen_zone(rng: &mut Rng, cfg: &ZoneGenCfg) -> GenZone {
         _ => 75 + rng.usize(cfg.max_trans.saturating_sub(75).max(1)),
     }
     .min(cfg.max_trans);
+    let ntrans = if many_trans { 1000 + rng.usize(1500) } else { ntrans };
 
     let tight = ntrans >= 2 && !close && rng.chance(1, 20);
     let v1 = version == 1;
